@@ -16,11 +16,12 @@ def classify(d):
     """diagnostic -> class of this property (or 'other')"""
     r, rel = d["range"], d["related"] or []
     rl = [fmt_label(x) for x in rel]
-    if d["kind"] == "Error" and r == "method.symbol_range" and len(rl) == 1 and "HashMap" in rl[0] and "::get(" in rl[0] and rl[0].endswith("symbol_range)"):
+    # the stored first occurrence, read through get(..) or through an occupied entry of the name map
+    if d["kind"] == "Error" and r == "method.symbol_range" and len(rl) == 1 and "method_names" in rl[0] and ("::get(" in rl[0]) and rl[0].endswith("symbol_range)"):
         return "dup_name"
     if d["kind"] == "Error" and r == "method.transact_code_range" and len(rl) == 1 and rl[0] in ("first_without.transact_code_range", "first_with.transact_code_range"):
         return "mixed:" + rl[0].split(".")[0]
-    if d["kind"] == "Error" and r == "method.transact_code_range" and len(rl) == 1 and "OccupiedEntry" in rl[0] and rl[0].endswith("transact_code_range)"):
+    if d["kind"] == "Error" and r == "method.transact_code_range" and len(rl) == 1 and "method_ids" in rl[0] and "::get(" in rl[0] and rl[0].endswith("transact_code_range)"):
         return "dup_code"
     return "other(%s,%s,%s)" % (d["kind"], fmt_label(r), rl)
 
@@ -50,12 +51,18 @@ def run(ctx, rep):
             N = I = D = None
             for l, v in p.conds:
                 s = fmt_label(l)
-                if isinstance(l, tuple) and l[0] == "variant" and "HashMap" in s and "::get(" in s:
-                    N = 1 if v == "Some" else 0
+                # a map's own answer to "is this key stored": variant of get(..) / entry(..), or contains_key(..)
+                seen_v = None
+                if isinstance(l, tuple) and l[0] == "variant" and ("::get(" in s or "::entry(" in s) and "HashMap" in s:
+                    seen_v = 1 if v in ("Some", "Occupied") else 0
+                elif "::contains_key(" in s and "HashMap" in s:
+                    seen_v = 1 if v else 0
+                if seen_v is not None and "method_names" in s and "method_ids" not in s:
+                    N = seen_v
+                elif seen_v is not None and "method_ids" in s and "method_names" not in s:
+                    D = seen_v
                 elif "is_empty" in s and "method_ids" in s:
                     I = 1 if v else 0
-                elif isinstance(l, tuple) and l[0] == "variant" and "::entry(" in s:
-                    D = 1 if v == "Occupied" else 0
                 else:
                     rep.fail("M1", "C09|M1|unknown-predicate|%s" % s[:80], cfg.where(cf), "the closure branches on %s which the model does not know" % s)
             steps[(W, O, C, N, I, D)] = p
@@ -101,14 +108,26 @@ def run(ctx, rep):
             assigns = [(e[1], fmt_label(e[2])) for e in p.effects if e[0] == "assign"]
             callsx = [e for e in p.effects if e[0] == "call"]
             cm = [c for c in callsx if c[1] == "validation::check_method"]
-            ins_names = [c for c in callsx if "HashMap" in c[1] and c[1].endswith("::insert") and base_label(c[2][0]) == "method_names"]
-            entry = [c for c in callsx if c[1].endswith("::entry") and base_label(c[2][0]) == "method_ids"]
-            vins = [c for c in callsx if "VacantEntry" in c[1] and c[1].endswith("::insert")]
-            other = [c for c in callsx if c not in cm + ins_names + entry + vins] + [e for e in p.effects if e[0] not in ("call", "push", "assign", "unwrap")]
+            def store_of(c, mapname):
+                """(key, value) when call c stores into `mapname`: insert(map, k, v) or VacantEntry::insert(entry(map, k).Vacant.0, v)"""
+                if "HashMap" in c[1] and c[1].endswith("::insert") and base_label(c[2][0]) == mapname:
+                    return (c[2][1], c[2][2])
+                if "VacantEntry" in c[1] and c[1].endswith("::insert"):
+                    src = c[2][0]
+                    while isinstance(src, tuple) and src and src[0] == "field":
+                        src = src[1]
+                    if isinstance(src, tuple) and src[0] == "call" and src[1].endswith("::entry") and base_label(src[2][0]) == mapname:
+                        return (src[2][1], c[2][1])
+                return None
+            lookups = [c for c in callsx if "HashMap" in c[1] and c[1].rsplit("::", 1)[1] in ("get", "entry", "contains_key", "is_empty") and base_label(c[2][0]) in ("method_names", "method_ids")] + \
+                      [c for c in callsx if "OccupiedEntry" in c[1] and c[1].endswith("::get")]
+            ins_names = [c for c in callsx if store_of(c, "method_names")]
+            ins_ids = [c for c in callsx if store_of(c, "method_ids")]
+            other = [c for c in callsx if c not in cm + ins_names + ins_ids + lookups] + [e for e in p.effects if e[0] not in ("call", "push", "assign", "unwrap")]
             # monitor
             if N:
                 exp_d, exp_a = ["dup_name"], []
-                exp_ins, exp_entry, exp_vins = 0, 0, 0
+                exp_ins, exp_vins = 0, 0
                 W2, O2, I2 = W, O, I
             else:
                 exp_d = []
@@ -123,18 +142,17 @@ def run(ctx, rep):
                     exp_a.append(("first_method_without_id", "method"))
                 if C and D:
                     exp_d.append("dup_code")
-                exp_ins, exp_entry, exp_vins = 1, (1 if C else 0), (1 if C and not D else 0)
+                exp_ins, exp_vins = 1, (1 if C and not D else 0)
                 W2, O2 = (1 if C else W), (O if C else 1)
                 I2 = 0 if C else I
             got_a = [(a, "method" if "method" in v and "Some" in v else v) for a, v in assigns]
-            ins_ok = len(ins_names) == exp_ins and all(c[2][1] == "method.name" and c[2][2] == "method" for c in ins_names)
-            ent_ok = len(entry) == exp_entry and all(has(c[2][1], "code") for c in entry)
-            vin_ok = len(vins) == exp_vins and all(c[2][1] == "method" for c in vins)
-            ok = (diags == exp_d and got_a == exp_a and ins_ok and ent_ok and vin_ok and not other and len(cm) == 1 and cm[0][2][0] == "method")
+            ins_ok = len(ins_names) == exp_ins and all(store_of(c, "method_names") == ("method.name", "method") for c in ins_names)
+            vin_ok = len(ins_ids) == exp_vins and all(has(store_of(c, "method_ids")[0], "code") and store_of(c, "method_ids")[1] == "method" for c in ins_ids)
+            ok = (diags == exp_d and got_a == exp_a and ins_ok and vin_ok and not other and len(cm) == 1 and cm[0][2][0] == "method")
             rep.check(ok, "M2", "C09|M2|%s" % key, cfg.where(cf),
-                      "abstract step %s: monitor expects diagnostics %r, marker updates %r, names.insert x%d, ids.entry x%d, vacant insert x%d; "
-                      "extracted diagnostics %r, updates %r, names.insert %d, entry %d, vacant insert %d, other effects %r" % (
-                          key, exp_d, exp_a, exp_ins, exp_entry, exp_vins, diags, got_a, len(ins_names), len(entry), len(vins), [fmt_label(o[1:3]) for o in other]),
+                      "abstract step %s: monitor expects diagnostics %r, marker updates %r, stores into the name map x%d (method.name -> method), stores into the code map x%d (code -> method); "
+                      "extracted diagnostics %r, updates %r, name stores %r, code stores %r, other effects %r" % (
+                          key, exp_d, exp_a, exp_ins, exp_vins, diags, got_a, [fmt_label(store_of(c, "method_names")) for c in ins_names], [fmt_label(store_of(c, "method_ids")) for c in ins_ids], [fmt_label(o[1:3]) for o in other]),
                       witness={"state": {"first_with_id_set": W, "first_without_id_set": O, "ids_empty": I}, "input": {"name_seen": N, "has_code": C, "code_seen": D}},
                       sample={"step": key, "diagnostics": diags, "updates": got_a})
             nxt = (W2, O2, I2)
